@@ -195,6 +195,12 @@ def build_args(case):
             assert np.array_equal(b.astype(float), np.asarray(a, dtype=float)), "int presentation of non-integer data"
             return b
         q0, z, prof = asint(q0), asint(z), tuple(asint(a) for a in prof)
+    if pres.get("f32"):
+        def asf32(a):
+            b = np.asarray(a).astype(np.float32)
+            assert np.array_equal(b.astype(float), np.asarray(a, dtype=float)), "float32 presentation of data that are not float32 numbers"
+            return b
+        z, prof = asf32(z), tuple(asf32(a) for a in prof)
     if pres.get("meas_nd"):
         meas = np.array(meas, dtype=float)
     if pres.get("levels_nd") and np.ndim(levels) > 0:
